@@ -22,7 +22,7 @@ ASSUMPTIONS = [
     "identifiers that occur in the source only inside nested scopes, provenance of names declared global "
     "and assigned",
 ]
-BOUNDS = {"quick": {"program_size": 2}, "thorough": {"program_size": 3}}
+BOUNDS = {"quick": {"program_size": 2}, "thorough": {"program_size": "2 over the full menu, 3 over the core and scoping menus"}}
 CHUNK = 15
 FRESH = ["zz_fresh", "nope_", "q9"]
 METAS_OK = ["#enter", "#exit", "#value", "#error", "#yield", "#receive"]
@@ -39,7 +39,7 @@ def program_sets(tier):
     ctl = (BIND_CTL | extra) if tier == "thorough" else scoping
     return [("gen", dict()), ("ctl", dict(size=C.SIZE[tier] + 1, only=ctl, key=("c10ctl", tier))),
             ("sig", dict(size=1 if tier == "quick" else 2, sigs=("rich", "kwonly", "doc", "closure-default"), key=("c10sig", tier))),
-            C.odd_set(tier)]
+            C.odd_set(tier)] + C.core3_sets(tier)
 
 
 def units(tier):
